@@ -121,12 +121,54 @@ def run(chk):
             chk.violation("colour %r embedded as %s, expected rgba%s" % (s, g, tuple(cases[s])), {"string": s, "expected": cases[s], "observed": g})
     if len(errs) < len(bad):
         chk.violation("%d rejected colour strings but only %d diagnostics" % (len(bad), len(errs)), {"qml": q, "diagnostics": errs})
+    cli_regeneration(chk, cases, r, quick)
     chk.cov["programs"] = len(strings)
     chk.cov["traces_validated_against_impl"] = len(strings)
     chk.cov["exhaustive"] = True
     chk.sample({"string": "#0abc", "expected_rgba": cases["#0abc"]})
     chk.sample({"string": "LIGHTGOLDENRODYELLOW", "expected_rgba": cases["LIGHTGOLDENRODYELLOW"]})
     chk.cov["trusted_base"] = ["TLC", "Color.tla keyword table (pydantic / prompt_toolkit CSS tables, cross-checked with X11 rgb.txt)", "expat"]
+
+
+def cli_regeneration(chk, cases, r, quick):
+    """the command-line tool, run again after the colour strings of the document were edited: the .ui on disk carries the channels of the
+    strings NOW in the source -- also when the new form has exactly the length of the old one (same number of channel digits)"""
+    import os
+    import shutil
+    import tempfile
+    from vlib import build_cli
+    qmluic = build_cli()
+    valid = sorted(s for s in cases if cases[s][0] >= 0)
+    digits = lambda s: sum(len(str(c)) for c in cases[s])
+    pairs = [("red", "blue"), ("#123abc", "#bc3a12"), ("#8f00", "#800f"), ("#010203", "#030201"), ("white", "#fefefe"), ("#fff", "black"), ("transparent", "#0000")]
+    by = {}
+    for s in r.sample(valid, 4000):
+        by.setdefault((digits(s), cases[s][3] == 255), []).append(s)
+    for k in sorted(by):
+        g = by[k]
+        for j in range(0, min(len(g) - 1, 6 if quick else 40), 2):
+            if cases[g[j]] != cases[g[j + 1]]:
+                pairs.append((g[j], g[j + 1]))
+    pairs = [p for p in pairs if p[0] in cases and p[1] in cases][:40 if quick else 400]
+    d = tempfile.mkdtemp(prefix="c19cli-", dir=chk.work)
+    try:
+        for n, (a, b) in enumerate(pairs):
+            for step, s in enumerate((a, b, a)):
+                q = "import qmluic.QtWidgets\nQWidget {\n  QColorDialog { id: c0; currentColor: %s }\n  QGraphicsView { id: c1; backgroundBrush: %s }\n}\n" % (json.dumps(s), json.dumps(s))
+                open(os.path.join(d, "Swatch%d.qml" % n), "w").write(q)
+                p = subprocess.run([qmluic, "generate-ui", "--foreign-types", QT5_METATYPES, "Swatch%d.qml" % n], cwd=d, capture_output=True, text=True, timeout=60)
+                chk.count({"cli_regen": [a, b], "step": step})
+                ui = os.path.join(d, "swatch%d.ui" % n)
+                if p.returncode != 0 or not os.path.exists(ui):
+                    raise ToolError("generate-ui failed on a valid colour %r: %s" % (s, p.stderr[-300:]))
+                got = read_colors(open(ui, encoding="utf-8").read())
+                for oid in ("c0", "c1"):
+                    if got.get(oid) != cases[s]:
+                        chk.violation("after editing the colour string %r -> %r and running the tool again the .ui carries %s at %s, the source now denotes rgba%s" % (
+                            (a, b, a)[step - 1] if step else None, s, got.get(oid), oid, tuple(cases[s])), {"qml": q, "history": [a, b, a][:step + 1], "ui": open(ui).read()})
+                        break
+    finally:
+        shutil.rmtree(d, ignore_errors=True)
 
 
 def read_colors(ui_xml):
